@@ -1,10 +1,140 @@
 (* C18 — exported theorems only: each is closed by [exact] and followed by Print Assumptions. *)
 From Coq Require Import String List ZArith Bool.
-From Verif Require Import C18.Model C18.Spec C18.Proofs.
+From Verif Require Import C18.Model C18.Spec C18.Proofs_Pass C18.Proofs_Round C18.Proofs_Gate
+  C18.Proofs_Check C18.Proofs_Stop.
 Import ListNotations.
 Open Scope Z_scope.
 
+(* MAIN: for every configuration, node set and finite history of Balance rounds (pod names
+   unique on a node), the Evict calls of the model satisfy the property in every round:
+   each call is on a node classified high / prod-high whose running estimate is above the
+   high threshold at that moment, a low node exists for the pass, all headroom dimensions are
+   still positive, the pod is one of the node's pods and passes the filters; nothing is
+   evicted in dry-run mode or when no node is overloaded / none is underused / all are; and with
+   anomaly gating a node is evicted from only after K earlier source rounds. *)
+Theorem c18_main : forall c ns rounds,
+  wf_rounds rounds = true -> C18_holds c ns rounds (map fst (run c ns rounds ([], []))).
+Proof. exact main_holds. Qed.
+Print Assumptions c18_main.
+
+(* the decision procedure run on the implementation's observable decides exactly that Prop *)
+Theorem c18_prop_code_decides : forall c ns rounds obs,
+  prop_code c ns rounds obs = 0 <-> C18_holds c ns rounds obs.
+Proof. exact prop_code_iff. Qed.
+Print Assumptions c18_prop_code_decides.
+
+Theorem c18_main_code : forall c ns rounds,
+  wf_rounds rounds = true -> prop_code c ns rounds (map fst (run c ns rounds ([], []))) = 0.
+Proof. exact main_prop_code. Qed.
+Print Assumptions c18_main_code.
+
+(* c18_source_overloaded / c18_needs_target / c18_filters, for ANY accepted sequence of Evict
+   calls (model's or implementation's): the state [stm] reached by replaying the calls before
+   it justifies each call *)
+Theorem c18_every_eviction : forall c tbl prod st evs st',
+  valid_pass c tbl prod st evs st' ->
+  forall pre x pv post, evs = pre ++ (x, pv) :: post ->
+  exists stm r p,
+    valid_pass c tbl prod st pre stm /\
+    find_row x tbl = Some r /\ rcls r = src_cls prod /\
+    over (uget x (fst stm)) (r_high prod r) = true /\
+    targets prod tbl <> [] /\ all_pos (snd stm) = true /\
+    find_pod pv (r_pods prod r) = Some p /\ pfilt_ok p = true.
+Proof. exact valid_pass_event. Qed.
+Print Assumptions c18_every_eviction.
+
+(* c18_stop: evictPods returns without a further call at the first moment the node is back
+   under its high threshold or some headroom is used up ... *)
 Theorem c18_stop_now : forall c prod r ps st dm,
   cont prod r st = false -> fst (fst (evict_pods c prod r ps st dm)) = [].
 Proof. exact evict_pods_stop. Qed.
 Print Assumptions c18_stop_now.
+
+(* ... and (pod usages non-negative) no later call of the pass is on that node either *)
+Theorem c18_stop_forever : forall c tbl prod,
+  pods_nonneg tbl ->
+  (forall r p, In r tbl -> In p (rprodpods r) -> In p (rall r)) ->
+  forall st evs st' pre post stm r,
+    st_dims (dims c) tbl st ->
+    valid_pass c tbl prod st evs st' -> evs = pre ++ post ->
+    valid_pass c tbl prod st pre stm ->
+    cont prod r stm = false ->
+    forall e, In e post -> find_row (fst e) tbl = Some r -> False.
+Proof. exact stop_forever. Qed.
+Print Assumptions c18_stop_forever.
+
+(* the hypotheses of c18_stop_forever hold for the tables and initial states of the model *)
+Theorem c18_table_dims : forall c ns rs, tbl_dims (dims c) (table c ns rs).
+Proof. exact table_dims. Qed.
+Print Assumptions c18_table_dims.
+Theorem c18_init_state_dims : forall d tbl prod avail,
+  tbl_dims d tbl -> NoDup (map rid tbl) -> length avail = d -> st_dims d tbl (init_state tbl prod avail).
+Proof. exact init_state_dims. Qed.
+Print Assumptions c18_init_state_dims.
+
+(* c18_nothing_when *)
+Theorem c18_nothing_when : forall c ns rs ds,
+  wf_round rs = true ->
+  nothing_cond (table c ns rs) (pool_size c ns rs) = true -> fst (balance c ns rs ds) = [].
+Proof. exact nothing_when. Qed.
+Print Assumptions c18_nothing_when.
+
+Theorem c18_dry_run_silent : forall c ns rs ds,
+  wf_round rs = true -> cdry c = true -> fst (balance c ns rs ds) = [].
+Proof. exact dry_run_silent. Qed.
+Print Assumptions c18_dry_run_silent.
+
+(* c18_anomaly_gate, multi-round: detector invariant carried through one Balance round from
+   ANY detector state satisfying it ... *)
+Theorem c18_detector_round : forall c tbl psize ds h,
+  tbl_wf tbl -> dstate_inv c h ds ->
+  dstate_inv c (tbl :: h) (snd (process_pool c tbl psize ds)) /\
+  gate_holds c h tbl (fst (process_pool c tbl psize ds)).
+Proof. exact process_pool_gate. Qed.
+Print Assumptions c18_detector_round.
+
+(* ... hence in the i-th round of any history, with ConsecutiveAbnormalities = K <> 1, every
+   Evict call is on a node that was a source (of the same kind) in at least K of the rounds
+   0..i-1, and is one in round i *)
+Theorem c18_anomaly_gate : forall c ns rounds i tbl ps evs,
+  wf_rounds rounds = true ->
+  nth_error (tables c ns rounds) i = Some (tbl, ps) ->
+  nth_error (map fst (run c ns rounds ([], []))) i = Some evs ->
+  round_holds c tbl ps evs /\
+  gate_holds c (rev (map fst (firstn i (tables c ns rounds))) ++ []) tbl evs.
+Proof.
+  exact (fun c ns rounds i tbl ps evs H => hist_holds_nth c _ _ [] i tbl ps evs (main_holds c ns rounds H)).
+Qed.
+Print Assumptions c18_anomaly_gate.
+
+(* the detector counts source rounds, it does not require them to be consecutive: the strict
+   reading of the gate is refuted by the faithful model (finding C18-anomaly-not-consecutive) *)
+Definition ex_cfg : cfg :=
+  mkCfg 0 false false false false true 2 1
+        [mkThr4 (-1) (-1) (-1) (-1); mkThr4 30 60 (-1) (-1); mkThr4 (-1) (-1) (-1) (-1)] [0; 1; 0].
+Definition ex_nodes : list nstat := [mkNstat 4000 1000 10 true; mkNstat 4000 1000 10 true].
+Definition ex_round (mem : Z) : list nround :=
+  [mkNround false 1 0 0 [mkPod 1 5000 true 100 mem 7 true]; mkNround false 1 0 100 []].
+(* node 1 at 80 %, 80 %, 50 % (between the thresholds), 80 % of memory; node 2 at 10 % *)
+Definition ex_rounds : list (list nround) := [ex_round 800; ex_round 800; ex_round 500; ex_round 800].
+
+Theorem c18_gate_consecutive_refuted :
+  exists c ns rounds,
+    wf_rounds rounds = true /\
+    map fst (run c ns rounds ([], [])) = [[]; []; []; [(1, 1)]] /\
+    strict_code c ns rounds (map fst (run c ns rounds ([], []))) = 7.
+Proof. exists ex_cfg, ex_nodes, ex_rounds. vm_compute. repeat split. Qed.
+Print Assumptions c18_gate_consecutive_refuted.
+
+(* non-vacuity: the hypotheses are satisfiable and the model does evict *)
+Example c18_nonvacuous_wf : wf_rounds ex_rounds = true.
+Proof. reflexivity. Qed.
+Example c18_nonvacuous_evicts :
+  map fst (run ex_cfg ex_nodes [ex_round 800; ex_round 800; ex_round 800] ([], [])) = [[]; []; [(1, 1)]]
+  /\ prop_code ex_cfg ex_nodes [ex_round 800; ex_round 800; ex_round 800] [[]; []; [(1, 1)]] = 0
+  /\ prop_code ex_cfg ex_nodes [ex_round 800; ex_round 800; ex_round 800] [[]; [(1, 1)]; []] = 6
+  /\ prop_code ex_cfg ex_nodes [ex_round 800; ex_round 800; ex_round 800] [[]; []; [(2, 1)]] = 1.
+Proof. vm_compute. repeat split. Qed.
+Example c18_nonvacuous_nothing :
+  nothing_cond (table ex_cfg ex_nodes (ex_round 500)) (pool_size ex_cfg ex_nodes (ex_round 500)) = true.
+Proof. vm_compute. reflexivity. Qed.
